@@ -382,3 +382,11 @@ package forwarder
 //@ pure
 //@ ensures !secret(result)
 //@ ensures hpu == nil ==> result == ""
+
+// The MITM filter installed by configureProxy (C07): a CONNECT is intercepted
+// only when the mitm-domains list matches its host.
+//@ func (*HTTPProxy).configureProxy$1
+//@ property C07
+//@ requires hp != nil && hp.config != nil && hp.config.MITMDomains != nil && req != nil && req.URL != nil
+//@ pure
+//@ ensures result == matcherHit(hp.config.MITMDomains, urlHostname(req.URL))
